@@ -7,6 +7,7 @@
 package main
 
 import (
+	"bytes"
 	"context"
 	"database/sql"
 	"database/sql/driver"
@@ -14,6 +15,7 @@ import (
 	"errors"
 	"fmt"
 	"os"
+	"os/exec"
 	"path/filepath"
 	"sort"
 	"strings"
@@ -39,6 +41,8 @@ type Input struct {
 	// MaxConns > 0 bounds the connection pool (corpus only: the model assumes that a driver
 	// call never waits for a connection held by a goroutine that is blocked on the cache)
 	MaxConns int `json:"max_conns,omitempty"`
+	// Plumb != nil: a session-plumbing case (plumb.go) instead of a schedule case
+	Plumb *PlumbIn `json:"plumb,omitempty"`
 }
 
 type Obs struct {
@@ -48,6 +52,8 @@ type Obs struct {
 	OpenStmts int      `json:"open_stmts"`
 	WrongRows int      `json:"wrong_rows"`
 	Notes     []string `json:"notes,omitempty"`
+	Races     int      `json:"races"` // data race reports written by the race detector during the case
+	Plumb     *PlumbObs `json:"plumb,omitempty"`
 	Widths    []int    `json:"-"`
 }
 
@@ -63,7 +69,7 @@ var modelGuard = false
 func probeGuard(e *env) bool {
 	q := Op{K: "query", Q: 0}
 	in := Input{Progs: [][]Op{{q}, {{K: "reset"}}, {q}, {{K: "close"}}},
-		Script: []Step{{0, 0}, {0, 0}, {1, 0}, {1, 0}, {1, 0}, {1, 0}, {0, 1}, {0, 0}}}
+		Script: []Step{{Pick: 0}, {Pick: 0}, {Pick: 1}, {Pick: 1}, {Pick: 1}, {Pick: 1}, {Pick: 0, Out: 1}, {Pick: 0}}}
 	o := e.run(in)
 	return !o.Hang && o.Leaked == 0
 }
@@ -76,6 +82,8 @@ var texts = []string{
 var argsOf = []int64{2, 20, 1}
 
 type env struct {
+	dir     string
+	raceLog string
 	dsn  string
 	refs [][]int64 // rows of every text without the cache
 }
@@ -85,11 +93,15 @@ func setup(dir string) *env {
 	for _, suf := range []string{"", "-wal", "-shm"} {
 		os.Remove(path + suf)
 	}
-	e := &env{dsn: "file:" + path + "?_journal_mode=WAL&_busy_timeout=5000"}
+	e := &env{dir: dir, dsn: "file:" + path + "?_journal_mode=WAL&_busy_timeout=5000"}
+	if raceEnabled {
+		e.raceLog = fmt.Sprintf("%s.%d", filepath.Join(dir, "race"), os.Getpid())
+	}
 	sqlDB, _ := recdrv.Open(e.dsn)
 	db, err := gorm.Open(sqlite.Dialector{Conn: sqlDB}, &gorm.Config{Logger: logger.Discard})
 	lib.Must(err)
 	lib.Must(db.Exec("CREATE TABLE items (id integer primary key, v integer)").Error)
+	lib.Must(db.Exec("CREATE TABLE marks (id integer primary key)").Error)
 	for i := int64(1); i <= 4; i++ {
 		lib.Must(db.Exec("INSERT INTO items (id, v) VALUES (?, ?)", i, i*10).Error)
 	}
@@ -167,7 +179,46 @@ func (e *env) doOp(h *gorm.DB, pdb *gorm.PreparedStmtDB, op Op) (res string, wro
 	return r, wrong, note
 }
 
+// raceLogSize is the size of the race detector's log (GORACE log_path), 0 without -race.
+func (e *env) raceLogSize() int64 {
+	if e.raceLog == "" {
+		return 0
+	}
+	fi, err := os.Stat(e.raceLog)
+	if err != nil {
+		return 0
+	}
+	return fi.Size()
+}
+
+// run executes one case; the input is journalled first so that a crash of the process can be
+// attributed to it by the supervising parent.
 func (e *env) run(in Input) Obs {
+	if b, err := json.Marshal(in); err == nil {
+		os.WriteFile(filepath.Join(e.dir, "current.json"), b, 0o644)
+	}
+	before := e.raceLogSize()
+	var o Obs
+	if in.Plumb != nil {
+		po := e.runPlumb(*in.Plumb)
+		o = Obs{Plumb: &po, Notes: po.Errs}
+	} else {
+		o = e.runSched(in)
+	}
+	if after := e.raceLogSize(); after > before {
+		o.Races = 1
+		if b, err := os.ReadFile(e.raceLog); err == nil && int64(len(b)) >= after {
+			txt := string(b[before:after])
+			if len(txt) > 1500 {
+				txt = txt[:1500]
+			}
+			o.Notes = append(o.Notes, "race detector: "+txt)
+		}
+	}
+	return o
+}
+
+func (e *env) runSched(in Input) Obs {
 	ctl := &controller{}
 	rec := recdrv.NewRecorder()
 	sqlDB := sql.OpenDB(&gconnector{inner: recdrv.NewConnector(e.dsn, rec), ctl: ctl})
@@ -182,6 +233,7 @@ func (e *env) run(in Input) Obs {
 	db, err := gorm.Open(sqlite.Dialector{Conn: p}, &gorm.Config{Logger: logger.Discard, PrepareStmt: true})
 	lib.Must(err)
 	pdb := db.ConnPool.(*gorm.PreparedStmtDB)
+	ctl.mux = pdb.Mux
 
 	var obs Obs
 	notes := make([][]string, len(in.Progs))
@@ -307,8 +359,12 @@ func term(in Input, o Obs) string {
 	progs := lib.ListOf(in.Progs, func(p []Op) string { return lib.ListOf(p, gOp) })
 	// first field: which variant of prepare_stmt.go the model is run as (false = as it is;
 	// true once the guarded-delete patch is in /repo)
+	plumbs := "[]"
+	if in.Plumb != nil && o.Plumb != nil {
+		plumbs = lib.List([]string{gPlumb(*in.Plumb, *o.Plumb)})
+	}
 	return lib.App("mk_case", lib.Bool(modelGuard), progs, lib.ListOf(o.Trace, gEv), lib.Bool(o.Hang),
-		lib.Nat(o.Leaked), lib.Nat(o.OpenStmts), lib.Nat(o.WrongRows))
+		lib.Nat(o.Leaked), lib.Nat(o.OpenStmts), lib.Nat(o.WrongRows), lib.Nat(o.Races), plumbs)
 }
 
 // ---- signatures of the known findings (computed from programs + schedule, never from results)
@@ -439,6 +495,9 @@ func sig(in Input, tr []Ev) string {
 
 func shape(in Input, tr []Ev) string {
 	var b strings.Builder
+	if in.Plumb != nil {
+		return "plumb:" + in.Plumb.Base + ":" + strings.Join(in.Plumb.Steps, ",")
+	}
 	for _, p := range in.Progs {
 		for _, o := range p {
 			fmt.Fprintf(&b, "%s%d%v,", o.K[:2], o.Q, o.Tx)
@@ -454,6 +513,14 @@ func shape(in Input, tr []Ev) string {
 // non-trivial: two operations on the same text overlap in time, or a Reset/Close/failed
 // Prepare/ErrBadConn happens inside another operation's window
 func nontrivial(in Input, tr []Ev) bool {
+	if in.Plumb != nil { // a transaction and a prepared-mode session are both involved
+		tx, prep := false, in.Plumb.Base == "prepared"
+		for _, s := range in.Plumb.Steps {
+			tx = tx || s == "begin" || s == "block"
+			prep = prep || s == "sessprep"
+		}
+		return tx && prep
+	}
 	ws := windows(in, tr)
 	for i, a := range ws {
 		for j, b := range ws {
@@ -528,7 +595,7 @@ func genInput(r *lib.Rng, maxG int, edge bool) Input {
 		if burst && (k == 0 || r.Chance(1, 6)) {
 			pick = -1
 		}
-		in.Script = append(in.Script, Step{Pick: pick, Out: out})
+		in.Script = append(in.Script, Step{Pick: pick, Out: out, Hold: r.Chance(1, 4)})
 	}
 	return in
 }
@@ -536,7 +603,7 @@ func genInput(r *lib.Rng, maxG int, edge bool) Input {
 // enumBase runs one program under EVERY completion order (depth-first over the controller's
 // decisions; the width of each decision is what the previous run observed), all outcomes ok
 // except the fault-th Prepare/execution release (fault < 0: none).  Returns the number of runs.
-func enumBase(add func(string, Input) Obs, progs [][]Op, fault int, cap int) int {
+func enumBase(add func(string, Input) Obs, progs [][]Op, fault int, cap int, hold bool) int {
 	progs = append(append([][]Op{}, progs...), []Op{{K: "close"}})
 	var prefix []int
 	n := 0
@@ -546,6 +613,7 @@ func enumBase(add func(string, Input) Obs, progs [][]Op, fault int, cap int) int
 			if i < len(prefix) {
 				script[i].Pick = prefix[i]
 			}
+			script[i].Hold = hold
 		}
 		in := Input{Progs: progs, Script: script}
 		if fault >= 0 {
@@ -594,16 +662,54 @@ func enumerate(add func(string, Input) Obs, budget int) {
 		cap = budget / len(bases)
 	}
 	for _, b := range bases {
-		enumBase(add, b, -1, cap)
+		enumBase(add, b, -1, cap, false)
+		enumBase(add, b, -1, cap/3, true)
 		for f := 1; f <= 6; f++ {
-			enumBase(add, b, f, cap/6)
+			enumBase(add, b, f, cap/6, false)
 		}
 	}
+}
+
+// supervise runs the harness proper as a child process (with the race detector configured to log
+// and go on instead of aborting).  If the child dies, the case it was running (journalled in
+// current.json) becomes the single, failing case of the run: a crash is a failing input.
+func supervise(a lib.Args) {
+	cmd := exec.Command(os.Args[0], os.Args[1:]...)
+	cmd.Env = append(os.Environ(), "C14_CHILD=1",
+		"GORACE=log_path="+filepath.Join(a.Out, "race")+" halt_on_error=0 exitcode=0")
+	var buf bytes.Buffer
+	cmd.Stdout, cmd.Stderr = &buf, &buf
+	os.Remove(filepath.Join(a.Out, "current.json"))
+	err := cmd.Run()
+	os.Stdout.Write(buf.Bytes())
+	if err == nil {
+		return
+	}
+	b, rerr := os.ReadFile(filepath.Join(a.Out, "current.json"))
+	var in Input
+	if rerr != nil || json.Unmarshal(b, &in) != nil {
+		fmt.Println("c14: harness died before any case:", err)
+		os.Exit(1)
+	}
+	tail := buf.String()
+	if len(tail) > 3000 {
+		tail = tail[len(tail)-3000:]
+	}
+	o := Obs{Hang: true, Notes: []string{"the harness process died while running this case: " + err.Error(), tail}}
+	out := lib.NewOut(a.Out, "C14")
+	out.Extra["rule"] = "crash: the process running real gorm died; the case it was running is reported"
+	out.Add(lib.Case{Term: term(in, o), JSON: map[string]interface{}{"input": in, "observed": o},
+		Sig: "", Kind: "crash", Shape: "crash", Nontriv: true})
+	lib.Must(out.Flush())
 }
 
 func main() {
 	a := lib.ParseArgs()
 	lib.Must(os.MkdirAll(a.Out, 0o755))
+	if os.Getenv("C14_CHILD") == "" {
+		supervise(a)
+		return
+	}
 	e := setup(a.Out)
 	modelGuard = probeGuard(e)
 	out := lib.NewOut(a.Out, "C14")
@@ -614,6 +720,12 @@ func main() {
 		o := e.run(in)
 		out.Add(lib.Case{Term: term(in, o), JSON: map[string]interface{}{"input": in, "observed": o},
 			Sig: sig(in, o.Trace), Kind: kind, Shape: shape(in, o.Trace), Nontriv: nontrivial(in, o.Trace)})
+		out.Count("races", fmt.Sprint(o.Races))
+		if in.Plumb != nil {
+			out.Count("plumbing_base", in.Plumb.Base)
+			out.Count("plumbing_steps", strings.Join(in.Plumb.Steps, ","))
+			return o
+		}
 		out.Count("goroutines", fmt.Sprint(len(in.Progs)-1))
 		nops := 0
 		for _, p := range in.Progs {
@@ -669,14 +781,26 @@ func main() {
 	for _, f := range lib.CorpusFiles(a.Corpus) {
 		add("corpus", load(f))
 	}
+	// session plumbing: every derivation of length <= 3 (quick) / 4 (thorough) from both bases
+	maxLen := 3
+	if a.Tier == "thorough" {
+		maxLen = 4
+	}
+	for _, pl := range allPlumb(maxLen) {
+		pl := pl
+		add("plumb", Input{Plumb: &pl})
+	}
 	r := lib.NewRng(a.Seed)
 	if a.Tier == "thorough" {
 		enumerate(add, a.N)
 	} else {
 		// a few completely enumerated small programs in the quick tier, too
 		q := func(k string, tx bool) Op { return Op{K: k, Q: 0, Tx: tx} }
-		enumBase(add, [][]Op{{q("query", false)}, {q("exec", false)}}, -1, 120)
-		enumBase(add, [][]Op{{q("query", false)}, {{K: "reset"}}}, -1, 120)
+		enumBase(add, [][]Op{{q("query", false)}, {q("exec", false)}}, -1, 120, false)
+		enumBase(add, [][]Op{{q("query", false)}, {{K: "reset"}}}, -1, 120, false)
+		// the same with a reader holding Mux.RLock whenever a Prepare call completes
+		enumBase(add, [][]Op{{q("query", false)}, {q("exec", false)}}, -1, 120, true)
+		enumBase(add, [][]Op{{q("query", false)}, {q("query", true)}, {{K: "reset"}}}, -1, 60, true)
 	}
 	// burst stream: 3..4 goroutines start the same cold text at the very same time (the window
 	// between the RLock check and the publication under Lock is only hit by a real race)
